@@ -230,6 +230,34 @@ def direct_oracle(ctx, bufs, real_buffer, budget):
             ctx.case(("real", off, old, new, tail))
 
 
+def content_sensitive(ctx, bufs=(1, 2, 3, 4), maxlen=9):
+    """the byte VALUES must not matter: the same requests on contents with NUL runs, repeated blocks and constant
+    bytes (an implementation that skips or merges 'empty' chunks would pass on distinct-byte data)"""
+    U = _impl()
+    for buf in bufs:
+        with patched_buf(U, buf):
+            for n in range(2, maxlen + 1):
+                datas = {bytes(n), b"\x01" + bytes(n - 2) + b"\x02", bytes([7]) * n, (b"\x00" * buf + b"\xaa" * buf) * n, (b"\xaa" * buf + b"\x00" * buf) * n}
+                for data in sorted(d[:n] for d in datas):
+                    for fn in ("resize_bytes", "insert_bytes", "delete_bytes", "move_bytes"):
+                        for args in arg_space(fn, n):
+                            ri, pi, di = run_impl(U, fn, data, args)
+                            oracle_check(ctx, fn, data, args, buf, ri, di, "content")
+                            ctx.oracle_cases += 1
+                            ctx.count("oracle:content-sensitive")
+                            ctx.case(("content", fn, data, args, buf) if di != data else None)
+    # and at the real buffer size: a NUL block of one buffer in front of payload, moved towards the end
+    buf = U._DEFAULT_BUFFER_SIZE
+    base = os.urandom(1 << 16)
+    payload = (base * (buf // len(base) + 1))[:buf]
+    for data, args in ((b"HEAD" + bytes(buf) + payload, (0, buf, 4)), (b"HEAD" + payload + bytes(buf) + payload[:777], (3, buf + 3, 1))):
+        ri, pi, di = run_impl(U, "resize_bytes", data, args)
+        oracle_check(ctx, "resize_bytes", data, args, buf, ri, di, "content-real-buffer")
+        ctx.oracle_cases += 1
+        ctx.count("oracle:content-sensitive")
+        ctx.case(("content-real", len(data), args))
+
+
 def above_default_buffer(ctx):
     """explicit BUFFER_SIZE values ABOVE the 2^20 default (callers may pass any size): growth, shrink and moves whose
     steps exceed 2^20 bytes"""
@@ -299,10 +327,12 @@ def run(ctx):
         correspondence(ctx, 9, [1, 2, 3, 4, 5, 6, 7, 8, 9, 10])
         direct_oracle(ctx, [4, 64, 1000], 60, 400)
         above_default_buffer(ctx)
+        content_sensitive(ctx)
     else:
         correspondence(ctx, 7, [1, 2, 3, 5, 8])
         direct_oracle(ctx, [4, 64], 6, 150)
         above_default_buffer(ctx)
+        content_sensitive(ctx, (1, 2, 3), 7)
     vm_crosscheck(ctx)
 
 
@@ -324,6 +354,7 @@ def search(ctx, broken):
                             return
     direct_oracle(ctx, [4, 16, 64, 1000, 4096], 40, 600)
     above_default_buffer(ctx)
+    content_sensitive(ctx)
     ctx.notes["search"] = "exhaustive len<=10 x BUF in {1,2,3,4,7} and lattices (incl. real buffer) found %d failing inputs" % (len(ctx.violations) - before)
 
 
